@@ -20,6 +20,7 @@ RULE = ("passwords from a generator biased to blanks (inside, leading), non-ASCI
 ASSUMPTIONS = ["passwords with CR/LF or trailing blanks are not carriable by the line protocol and are excluded",
                "all loggers propagate to the root logger (true for aioftp.client / aioftp.server)"]
 REQUIRED_MONITORS = ["substring_search", "non_interference", "records_seen"]
+ANCHOR_FUNCTIONS = ['server.py:Server.parse_command', 'client.py:Client.login', 'client.py:BaseClient.command']
 EXHAUSTIVE = {"quick": False, "thorough": False}
 
 ALPHA = "abcdefghijklmnopqrstuvwxyzABCDEFGHIJKLMNOPQRSTUVWXYZ0123456789"
